@@ -185,7 +185,10 @@ def gen_text(rng, closing):
         elif r < 0.37 and closing:
             parts.append(closing)
         elif r < 0.45 and closing and len(closing) > 1:
-            parts.append(rng.choice([closing[0], closing[1], closing[0] * 2 + closing[1] * 2, closing[1] + closing[0]]))
+            parts.append(rng.choice([closing[0], closing[1], closing[0] * 2 + closing[1] * 2, closing[1] + closing[0],
+                                     # the closing symbol split by characters a later transcoding step might drop
+                                     closing[0] + "é" + closing[1], closing[0] + "日本" + closing[1] + " G1 X9",
+                                     closing[0] + "\x00" + closing[1]]))
         else:
             parts.append(rng.choice(ATOMS))
     return "".join(parts)
